@@ -142,6 +142,16 @@ theorem op_casesStep (X : SchemaX) (cx : Cx) (choice : STree) (sibs : List DNode
   · exact op_OkOut.ofEvs _
   · exact op_OkOut.empty
 
+theorem op_casesStepQ (X : SchemaX) (cx : Cx) (choice : STree) (sibs : List DNode) : op_OkOut (casesStepQ X cx choice sibs).2 := by
+  unfold casesStepQ
+  split
+  · exact op_casesStep X cx choice sibs
+  · unfold casesStepFix
+    split
+    · exact op_OkOut.err _ _ rfl
+    · exact op_OkOut.empty
+    · exact op_OkOut.ofEvs _
+
 mutual
 theorem op_choiceRNode (X : SchemaX) (cx : Cx) : ∀ (t : STree) (sibs : List DNode), op_OkOut (choiceRNode X cx t sibs).2
   | .mk s i ks, sibs => by
@@ -149,7 +159,7 @@ theorem op_choiceRNode (X : SchemaX) (cx : Cx) : ∀ (t : STree) (sibs : List DN
     split
     · split
       · exact op_OkOut.empty
-      · exact op_OkOut.append (op_casesStep X cx _ sibs) (op_choiceRCases X cx ks _)
+      · exact op_OkOut.append (op_casesStepQ X cx _ sibs) (op_choiceRCases X cx ks _)
     · exact op_OkOut.empty
 theorem op_choiceRCases (X : SchemaX) (cx : Cx) : ∀ (cs : List STree) (sibs : List DNode), op_OkOut (choiceRCases X cx cs sibs).2
   | [], _ => by unfold choiceRCases; exact op_OkOut.empty
